@@ -1151,3 +1151,65 @@ def q_c14(tr):
 
 
 QUERIES["C14"] = q_c14
+
+
+def q_c14_corner_completeness(tr):
+    """every corner character closes the outline in each of its two orientations: with a horizontal
+    edge on one side and a vertical edge (or the matching corner of a one-row-high box) above/below,
+    the cell emits fragments that end at BOTH border junction points"""
+    m = tr.model
+    cg = m.t.interp.cellgrid_fns
+    P = lambda n: m.t.interp.call_fn(cg, n, [])
+    c, k, o, w = P("c"), P("k"), P("o"), P("w")
+    H = [x for x in ["-", "~"] if x in m.index]
+    # (corner char, side of the horizontal edge) -> characters that may continue the outline vertically.
+    # Orientations per spec.md / README: '.' and ',' are top corners (',' top-left only), "'" and '`' are
+    # bottom corners ('`' bottom-left only); a one-row-high rounded box pairs '.' over "'" and ',' over '`'.
+    VERT = ["|", ":", "!"]
+    styles = [
+        (".", "top", "right", VERT + ["'", "`"]),   # top-left corner: edge to the right, outline continues below
+        (".", "top", "left", VERT + ["'"]),         # top-right corner
+        (",", "top", "right", VERT + ["`", "'"]),   # top-left corner
+        ("'", "bottom", "right", VERT + ["."]),     # bottom-left corner (',' pairs with '`', not with "'")
+        ("'", "bottom", "left", VERT + ["."]),      # bottom-right corner
+        ("`", "bottom", "right", VERT + [".", ","]),  # bottom-left corner
+        ("’", "bottom", "right", VERT + ["."]),
+        ("’", "bottom", "left", VERT + ["."]),
+    ]
+    for ch, kind, hside, vchars in styles:
+        if ch not in m.index:
+            continue
+        beh = m.behaviour(ch)
+        if True:
+            vside = "bottom" if kind == "top" else "top"
+            jh = k if hside == "left" else o
+            jv = w if vside == "bottom" else c
+            allowed = {n: [] for n in NEIGHBOURS}
+            allowed[hside] = H
+            allowed[vside] = [x for x in vchars if x in m.index]
+            R = restrict(m, allowed)
+            R.append("(not (= %s NONE))" % hside)
+            R.append("(not (= %s NONE))" % vside)
+
+            def reach(p):
+                return f_any(cond for cond, frs in beh
+                             if any(f[0] in ("line", "arc") and (f[1] == p or f[2] == p) for f in frs))
+            viol = tables.f_or(tables.f_not(reach(jh)), tables.f_not(reach(jv)))
+            name = "o14_2_corner_closes_%x_%s" % (ord(ch), hside)
+            desc = ("corner %r as a %s-%s corner: %s neighbour in {- ~}, %s neighbour in %s, every other neighbour blank "
+                    "(all box heights from one row on): the cell emits a line or arc ending at the junction with the "
+                    "horizontal edge AND one ending at the junction with the vertical edge, so the outline is closed"
+                    % (ch, kind, hside, hside, vside, allowed[vside]))
+            tr.decide(name, "O14.2", desc, ch, R + [m.smt_formula(viol)],
+                      "corner %r leaves the outline open on its %s/%s side" % (ch, hside, vside))
+
+
+_q_c14_prev = q_c14
+
+
+def q_c14(tr):
+    _q_c14_prev(tr)
+    q_c14_corner_completeness(tr)
+
+
+QUERIES["C14"] = q_c14
